@@ -221,7 +221,17 @@ def emit(r, rng, name, policy, reg_style, flavours, leave_out=None):
     # registration
     regd = [c for c in range(r.n) if c != leave_out]
     polsuffix = (", " + pol) if pol else ""
-    if reg_style == "one":
+    if reg_style == "macros":
+        # register_classes (all bases derived by the library) for some, register_class (bases listed) for others
+        chunk = [c for c in regd if rng.random() < 0.6]
+        closed = sorted(set(chunk) | {b for c in chunk for b in regd if der[c][b]})
+        if closed:
+            L.append("register_classes(%s%s);" % (", ".join(cname(c) for c in closed), polsuffix))
+        for c in regd:
+            if c not in closed or rng.random() < 0.3:
+                bs = [b for b in r.bases[c] if b != leave_out]
+                L.append("register_class(%s%s);" % (", ".join([cname(c)] + [cname(b) for b in bs]), polsuffix))
+    elif reg_style == "one":
         order = regd[:]
         rng.shuffle(order)
         L.append("static use_classes<%s%s> YOMM2_GENSYM;" % (", ".join(cname(c) for c in order), polsuffix))
@@ -336,7 +346,24 @@ def emit(r, rng, name, policy, reg_style, flavours, leave_out=None):
                 L.append("static M%d::add_definition<cont_%d_%d> reg_%d_%d;" % (mi, mi, di, mi, di))
     # ---- main
     main = ["int main() {"]
-    if policy != "throw":
+    handler_api = rng.choice(["member", "set_error_handler", "set_method_call_error_handler"]) if policy == "default" else "member"
+    if leave_out is not None and handler_api == "set_method_call_error_handler":
+        handler_api = "set_error_handler"
+    if handler_api == "set_method_call_error_handler":
+        # the deprecated hook: (code, method name), arity, type ids - converted back into a resolution_error
+        main.append("    set_method_call_error_handler([](const method_call_error& err, std::size_t arity, type_id* types) {")
+        main.append("        resolution_error r; r.status = err.code; r.arity = arity; r.method_name = err.method_name;")
+        main.append("        for (std::size_t i = 0; i < resolution_error::max_types; ++i) r.types[i] = i < arity ? types[i] : 0;")
+        main.append("        throw r;")
+        main.append("    });")
+    elif handler_api == "set_error_handler":
+        main.append("    set_error_handler([](const error_type& e) {")
+        main.append("        if (auto r = std::get_if<resolution_error>(&e)) throw *r;")
+        main.append("        if (auto r = std::get_if<unknown_class_error>(&e)) throw *r;")
+        main.append("        if (auto r = std::get_if<method_table_error>(&e)) throw *r;")
+        main.append("        if (auto r = std::get_if<hash_search_error>(&e)) throw *r;")
+        main.append("    });")
+    elif policy != "throw":
         main.append("    %s::error = [](const error_type& e) {" % P)
         main.append("        if (auto r = std::get_if<resolution_error>(&e)) throw *r;")
         main.append("        if (auto r = std::get_if<unknown_class_error>(&e)) throw *r;")
@@ -356,7 +383,7 @@ def emit(r, rng, name, policy, reg_style, flavours, leave_out=None):
             if leave_out in m["vp"] or any(leave_out in d for d in m["defs"]):
                 used_at_update = True
         listed = any(leave_out in r.bases[c] for c in regd)
-        if reg_style in ("one", "split", "mixed"):
+        if reg_style in ("one", "split", "mixed", "macros"):
             listed = False  # use_classes only lists the classes it is given
         used_at_update = used_at_update or listed
         lo = cname(leave_out)
@@ -389,6 +416,7 @@ def emit(r, rng, name, policy, reg_style, flavours, leave_out=None):
             s = select(der, m, tup)
             # build the argument list
             args, pre = [], []
+            objexpr = {i: "&o%d" % tup[i] for i in range(ar)}
             vi = 0
             for p in range(m["nparams"]):
                 if p in m["positions"]:
@@ -404,8 +432,12 @@ def emit(r, rng, name, policy, reg_style, flavours, leave_out=None):
                         pre.append("        std::shared_ptr<%s> s_%d = so%d;" % (B, vi, c))
                         args.append("s_%d" % vi)
                     elif k in ("vp", "cvp"):
-                        how = rng.choice(["base-ref", "exact", "copy", "conv"] + (["final"] if c == m["vp"][vi] else []))
-                        if how == "base-ref":
+                        how = rng.choice(["base-ref", "exact", "copy", "conv", "final_virtual_ptr"] + (["final"] if c == m["vp"][vi] else []) + ([] if pol else ["deduction-guide"]))
+                        if how == "final_virtual_ptr":
+                            pre.append("        auto f_%d = final_virtual_ptr%s(o%d); virtual_ptr<%s%s> v_%d(f_%d);" % (vi, ("<%s>" % pol) if pol else "", c, B, pa, vi, vi))
+                        elif how == "deduction-guide":
+                            pre.append("        auto g_%d = virtual_ptr(o%d); virtual_ptr<%s> v_%d(g_%d);" % (vi, c, B, vi, vi))
+                        elif how == "base-ref":
                             pre.append("        virtual_ptr<%s%s> v_%d(static_cast<%s&>(o%d));" % (B, pa, vi, B, c))
                         elif how == "exact":
                             pre.append("        virtual_ptr<%s%s> v_%d(o%d);" % (B, pa, vi, c))
@@ -417,8 +449,12 @@ def emit(r, rng, name, policy, reg_style, flavours, leave_out=None):
                             pre.append("        virtual_ptr<%s%s> w_%d(o%d); virtual_ptr<%s%s> v_%d(std::move(w_%d));" % (cname(c), pa, vi, c, B, pa, vi, vi))
                         args.append("v_%d" % vi)
                     else:
-                        how = rng.choice(["base-sp", "exact-sp", "conv"])
-                        if how == "base-sp":
+                        how = rng.choice(["base-sp", "exact-sp", "conv", "make_virtual_shared"])
+                        if how == "make_virtual_shared":
+                            # a new object of exactly class c; the definition must see *that* object
+                            pre.append("        auto mk_%d = make_virtual_shared<%s%s>(); virtual_shared_ptr<%s%s> v_%d(mk_%d);" % (vi, cname(c), pa, B, pa, vi, vi))
+                            objexpr[vi] = "mk_%d.get().get()" % vi
+                        elif how == "base-sp":
                             pre.append("        std::shared_ptr<%s> s_%d = so%d; virtual_shared_ptr<%s%s> v_%d(s_%d);" % (B, vi, c, B, pa, vi, vi))
                         elif how == "exact-sp":
                             pre.append("        virtual_shared_ptr<%s%s> v_%d(so%d);" % (B, pa, vi, c))
@@ -440,7 +476,7 @@ def emit(r, rng, name, policy, reg_style, flavours, leave_out=None):
                 main.append('        CHECK(st == 0 && g_ran_method == %d && g_ran_def == %d && res == %d, "C01:wrong-definition", "%s: ran m%%d/def%%d status %%d, expected def %d", g_ran_method, g_ran_def, st);' % (mi, d, 100 * mi + d, tdesc, d))
                 # the definition saw the caller's objects, viewed as its classes
                 for i in range(ar):
-                    main.append('        CHECK(st != 0 || g_seen[%d] == (const void*)static_cast<%s*>(&o%d), "C11:wrong-object:%s:generated-hierarchy", "%s: virtual argument %d is not the caller\'s object viewed as %s");' % (i, cname(m["defs"][d][i]), tup[i], m["kinds"][i], tdesc, i, cname(m["defs"][d][i])))
+                    main.append('        CHECK(st != 0 || g_seen[%d] == (const void*)static_cast<%s*>(%s), "C11:wrong-object:%s:generated-hierarchy", "%s: virtual argument %d is not the caller\'s object viewed as %s");' % (i, cname(m["defs"][d][i]), objexpr[i], m["kinds"][i], tdesc, i, cname(m["defs"][d][i])))
                 for i in range(ar):
                     if m["kinds"][i] in ("vp", "cvp", "vsp", "cvsp"):
                         main.append('        CHECK(st != 0 || g_vptr_ok[%d], "C09:virtual_ptr-received-by-definition-carries-foreign-vtable:%s", "%s: the virtual_ptr passed to the definition for virtual argument %d does not carry the v-table of the pointee\'s class (a call through it would not run what a plain reference runs)");' % (i, m["kinds"][i], tdesc, i))
@@ -681,7 +717,7 @@ def programs(tier, seed, focus=None):
     rng = random.Random(seed * 31 + 7)
     out = []
     n = 10 if tier == "quick" else 90
-    styles = ["one", "split", "direct", "mixed"]
+    styles = ["one", "split", "direct", "mixed", "macros"]
     pols = ["default", "default", "map", "indirect", "throw", "debug"]
     for k in range(n):
         r = gen_registry(rng, 8 if tier == "quick" else 10)
